@@ -84,6 +84,8 @@ struct Value {
                     fprintf(stderr, "parse error, unclosed [bracket (expected: ']') in \"%s\"\n", args_string);
                     exit(1);
                 }
+                // the character that follows the group decides how the token ends (a '#' right after it starts a comment)
+                ch = args_string[i - (i == args_len)];
             }
             if (i == args_len || (ch == ']' || ch == ' ' || ch == '\t' || ch == '\n' || ch == '\r' || ch == '#')) {
                 if (start == i) {
